@@ -2,6 +2,12 @@
 // (list: apicov.py), each on small SYMBOLIC automata, one entry point (or a small group that cannot throw) per query,
 // selected by CALL.  What decides is the engine's own checking (memory safety, undefined behaviour, unexpected
 // exceptions); the CHECKs are plain sanity conditions (counts, round trips, verdicts of trivially true inclusions).
+// Registered in checks.d/C20.py as api_misc_tree / _tree_algo / _fa / _fa_incl / _bdd / _bdd_incl / _lts (same source, the
+// translation units each group needs).  VS_SELFTEST_1 seeds a wrong expectation at the end of every group.
+// Declared in the public headers but defined nowhere (cannot be called at all, a caller does not link): ExplicitTreeAut::
+// LoadFromAutDesc(desc, params) and (desc, StringToStateTranslWeak&), GetDown, DownAccessor(DownAccessor&&),
+// AcceptTrans::Iterator(const ExplicitTreeAut&), DownAccessor::Iterator(const ExplicitTreeAut&); BDDBottomUpTreeAut::
+// LoadFromAutDesc(desc, params) and (desc, StringToStateTranslWeak&); all three BDDTopDownTreeAut::LoadFromAutDesc.
 //
 //   explicit tree automata (U::SymAut<NS> over SYM_RANKS; symbols registered in the alphabet as "a", "b", ...)
 //     0  CheckInclusion(a, a)                       2-argument form (default parameters): must hold
@@ -10,7 +16,7 @@
 //     3  BuildStateIndex(TranslatorWeak<StateMap>&)
 //     4  Reduce(const ReduceParam&)                 TA_DOWNWARD
 //     5  ToString()
-//     6  ToString(const Transition&)
+//     6  ToString(const Transition&)                [not registered: formats through std::ostringstream, which the engine cannot execute]
 //     7  DumpToString(serializer, params)           no dictionary; the text must parse
 //     8  DumpToString(serializer, StateBackTranslStrict), DumpToString(serializer, StateDict)
 //     9  DumpToAutDesc(params), DumpToAutDesc(StateBackTranslStrict)
@@ -44,7 +50,7 @@
 //         8  move construction
 //     bottom-up only:
 //         9  GetCandidateTree()                      not implemented -> exception allowed
-//        10  DumpToDot()
+//        10  DumpToDot()                             [not registered: formats through std::ostringstream, see 6]
 //        11  GetTransMTBDDForTuple(tuple)
 //        12  CheckInclusion(a, a) 2-argument form (explicit symbol mode): must hold
 //        13  CheckInclusion(s, a) 2-argument form against the macro-state oracle (s: one state)
